@@ -303,8 +303,9 @@ if __name__ == '__main__':
     ap.add_argument('--rc', default='Rc')
     ap.add_argument('--keep', action='store_true')
     ap.add_argument('--raw', action='store_true')
+    ap.add_argument('--vf', help='verify only this function (debugging aid)')
     a = ap.parse_args()
-    r = run_unit(a.unit, {'RC': a.rc}, keep=a.keep)
+    r = run_unit(a.unit, {'RC': a.rc}, keep=a.keep, extra_args=(['--verify-root', '--verify-function', a.vf] if a.vf else ()))
     print('status', r.status, r.undecided_reason or '')
     print('verified', r.verified, 'errors(excl. canary)', r.errors, 'wall %.1fs' % r.wall_s)
     for f in r.failures:
